@@ -101,6 +101,28 @@ def step (s : St) (line : String) : St × String :=
   | ["reset"] => (fresh, "ok")
   | ["chainname", n] => match unhex n with | some n => withX s (setChainName · n) | none => bad
   | ["relayer", b] => match unhex b with | some b => withX s (registerRelayer · b) | none => bad
+  | ["update", _, _, _, _] => (s, "ok")        -- the store effects follow as plant / unplant lines
+  | ["plant", k, v, ok] =>
+    match unhex k, unhex v with
+    | some k, some v => withX { s with valid := (v, ok == "1") :: s.valid } (set · k v)
+    | _, _ => bad
+  | ["unplant", k] =>
+    match unhex k with
+    | some k => withX s (del · k)
+    | none => bad
+  | "bscupdate" :: chain :: _hdr :: _now :: rev :: h :: cb :: cv :: sb :: sv :: signer :: pend :: nd :: ds =>
+    match unhex chain, u64? rev, u64? h, unhex cb, unhex sb, unhex signer, nd.toNat? with
+    | some chain, some rev, some h, some cb, some sb, some signer, some nd =>
+      let pending : Option (Option Bytes) := if pend == "-" then some none else (unhex pend).map some
+      let dels := (ds.take nd).filterMap (fun d => (u64? d).map (fun x => (rev, x)))
+      match pending with
+      | none => bad
+      | some pending =>
+        let s := { s with valid := (cb, cv == "1") :: (sb, sv == "1") :: s.valid }
+        match bscUpdateO s.st.x chain (rev, h) cb sb signer pending dels with
+        | .ok x => ({ s with st := { s.st with x := x } }, "ok")
+        | _ => (s, "err")
+    | _, _, _, _, _, _, _ => bad
   | "rvparams" :: via :: en :: k :: rest =>
     match k.toNat? with
     | none => bad
